@@ -60,6 +60,11 @@ def build_archives(tier="thorough"):
         if m["kind"] == "file":
             m["data"] = content.make("x86" if i % 2 else "repetitive", 300 + 77 * i, 20 + i)
     A["solid2x"] = {"blob": ref7z.write(ms2, {"folders": [[0, 2], [4, 6]], "chains": [[("X86", {}), ("LZMA", {})], [("PPMD", {})]], "header": "lzma2"}), "members": ms2}
+    # the order 7-Zip itself writes: all files first, every directory entry at the end (a member is then met before the
+    # entry of the directory it lies in)
+    last = [m for m in ms if m["kind"] != "dir"] + [m for m in ms if m["kind"] == "dir"]
+    nd = [i for i, m in enumerate(last) if m["kind"] == "file"]
+    A["dirs-last"] = {"blob": ref7z.write(last, {"folders": [nd[:2], nd[2:]], "chains": [Z, C]}), "members": last}
     if tier == "quick":
         return A
     A["aes-multi"] = {"blob": ref7z.write(ms, {"folders": [[0], [2, 4], [6]], "chains": [[("LZMA2", {}), ("AES", {})]] * 3, "header": "lzma2+aes"}, password="pw"),
@@ -230,7 +235,7 @@ def main(tier="quick", seed=0, only=None):
         chk.merge_pool([r], plane=t[0])
     return chk.finish(
         rule=(
-            f"{len(archs)} archives (quick 5, thorough 8: data at PackPos 11 with a file-less folder, dummy padding and folder-level CRCs; two solid folders behind BCJ+LZMA and PPMd; AES folders with an AES header; four single-file folders; a py7zr-written tree with an empty directory and a zero-length file plus an appended folder; reference-written solid LZMA2 folder with 7 entries incl. 2 directories, an empty file and nested files; the same "
+            f"{len(archs)} archives (quick 6, thorough 9: directory entries stored after all files, as 7-Zip writes them; data at PackPos 11 with a file-less folder, dummy padding and folder-level CRCs; two solid folders behind BCJ+LZMA and PPMd; AES folders with an AES header; four single-file folders; a py7zr-written tree with an empty directory and a zero-length file plus an appended folder; reference-written solid LZMA2 folder with 7 entries incl. 2 directories, an empty file and nested files; the same "
             "entries in 3 folders COPY/LZMA2/BZIP2 with interleaved directories and an LZMA-encoded header; py7zr-written 3 append sessions "
             "COPY/LZMA2/COPY) x ALL 2^n subsets of member names x with/without an absent name x list/set x trailing slash on/off x "
             "recursive False/True x factory/directory sink x opened by stream (sequential) / path (thread-parallel); thorough: also "
